@@ -223,10 +223,17 @@ pub trait TypedIterable {
                 packet.truncate(packet_len - shift);
             }
         }
-        let new_offset_next = (self.offset_next() as isize + shift) as usize;
+        let old_offset_next = self.offset_next();
+        let new_offset_next = (old_offset_next as isize + shift) as usize;
         self.set_offset_next(new_offset_next);
         let section = self.current_section()?;
         let parsed_packet = self.parsed_packet_mut();
+        // The EDNS options move along with everything located after the record
+        if let Some(offset_edns) = parsed_packet.offset_edns {
+            if offset_edns >= old_offset_next {
+                parsed_packet.offset_edns = Some((offset_edns as isize + shift) as usize);
+            }
+        }
         if section == Section::NameServers
             || section == Section::Answer
             || section == Section::Question
